@@ -6,12 +6,12 @@ from fractions import Fraction as Fr
 
 from ..ref import Lib, PREFIX, split_unit
 from .common import mk_container, set_volume
-from .c01 import GEOMS
+from .c01 import GEOMS, select
 
 PROPERTY = 'C07'
 BOUNDS = ("Plate / slice operations on 2x3 plates (2x2 for many-to-one) with non-uniform symbolic well contents "
           "(water+NaCl+lipase on the source side, water on the destination side) and a symbolic quantity: transfer "
-          "over the 15 non-overlapping geometries of C01 (row/col/rect/stepped/list/1->all/all->1/whole Plate either "
+          "over the 18 non-overlapping geometries of C01 (incl. 3 with slices of slices) (row/col/rect/stepped/list/1->all/all->1/whole Plate either "
           "side/container->plate,list/plate,col->container/same plate disjoint) in uL and mg; remove (water, SOLID, "
           "ENZYME) and fill_to (uL, mg, umol) on plate/row/col/rect/stepped/well/list selections; each also as a "
           "recipe step through bake; 12 shape combinations that must be rejected. Oracle: the same stand-alone "
@@ -146,7 +146,7 @@ def h_transfer(h):
         if sel == 'C':
             return objs[key]
         plate = objs['P'] if (key == 'P' or same) else objs['Q']
-        return plate if sel == 'PLATE' else plate[sel]
+        return select(plate, sel)
 
     src_arg = arg(src_sel, 'src' if src_sel == 'C' else 'P')
     dst_arg = arg(dst_sel, 'dst' if dst_sel == 'C' else 'Q')
